@@ -15,16 +15,16 @@ Definition spec_forbidden_absent (f : list N) (rows : list orow) : bool :=
 (* C07: a header whose parent is forbidden is an orphan *)
 Definition spec_desc_orphan (f : list N) (rows : list orow) : bool :=
   forallb (fun r => if memN (o_prev r) f then st_eqb (o_st r) Orphan else true) rows.
-(* C07: ... and so is every header linked to such a header through stored rows, at any depth: close the set of
-   descendants under the parent relation (|rows| rounds suffice); soundness: ChainForbidden.desc_orphan_all_inv *)
-Definition step_desc (f : list N) (rows : list orow) (d : list N) : list N :=
-  map o_id (filter (fun r => memN (o_prev r) f || memN (o_prev r) d) rows).
-Fixpoint iter_desc (f : list N) (rows : list orow) (n : nat) (d : list N) : list N :=
-  match n with O => d | S n => iter_desc f rows n (step_desc f rows d) end.
+(* C07: ... and so is every header linked to such a header through stored rows, at any depth.  Local form: a row
+   whose previous hash is forbidden, or whose parent row is stored and is an ORPHAN, is an ORPHAN.  By induction
+   along the links this decides "every descendant at any depth is an ORPHAN" exactly
+   (ChainForbidden.desc_orphan_all_inv: accepted on every store satisfying the invariant;
+    ChainForbidden.desc_orphan_all_complete: accepted only if every descendant is an ORPHAN). *)
+Definition o_by_id (rows : list orow) (i : N) : option orow := find (fun r => N.eqb (o_id r) i) rows.
 Definition spec_desc_orphan_all (f : list N) (rows : list orow) : bool :=
-  let d := iter_desc f rows (length rows) [] in
-  forallb (fun r => if memN (o_id r) d then st_eqb (o_st r) Orphan else true) rows.
-
+  forallb (fun r =>
+    if memN (o_prev r) f || match o_by_id rows (o_prev r) with Some p => st_eqb (o_st p) Orphan | None => false end
+    then st_eqb (o_st r) Orphan else true) rows.
 (* C07: the stop hash of a request made while the next checkpoint is the one at height nh (-1: none left) *)
 Definition spec_stop (cps : list cp) (nh : Z) (stop : N) : bool :=
   match find (fun c => fst c =? nh) cps with
